@@ -656,7 +656,9 @@ def compare(in_expr, out_expr):
             if c is not True:
                 diffs.append(('value-differs', conj([pre, neg(c)]), 'input value %s, output value %s' % (short(v_in), short(v_out))))
                 continue
-            d = first_trace_diff(ev_in.tostr, ev_out.tostr)
+            # a substitution's ToString may be delayed past the evaluation of later substitutions (tolerated by the property),
+            # which can also reorder it with ToString events nested in those: compare the coercions as a multiset
+            d = first_trace_diff(sorted(ev_in.tostr, key=repr), sorted(ev_out.tostr, key=repr))
             if d is not None:
                 diffs.append(('template-coercions-differ', conj([pre, neg(d[3])]), 'ToString #%d: %s vs %s' % (d[0], short(d[1]), short(d[2]))))
     return diffs
